@@ -41,11 +41,11 @@ def concretise(kinds, rnd, m=256):
     return out
 
 
-def run_tunnel(hist, seed=0):
+def run_tunnel(hist, seed=0, route_back=False):
     """hist: list of ("req", chan_offset, counter) | ("reconnect",).  Returns the recorded trace."""
     trace = []
     with virtual_world(seed) as loop:
-        sim = GatewaySim(loop, "udp", auto_reconnect=True, auto_reconnect_wait=1)
+        sim = GatewaySim(loop, "udp", auto_reconnect=True, auto_reconnect_wait=1, route_back=route_back)
 
         async def main():
             await sim.tun.connect()
@@ -162,6 +162,10 @@ def histories(ck):
                 # note: the tunnel ignores the channel id of requests; the reference for foreign channels is in the spec
                 exp = (exp + 1) % 256
         hs.append(h)
+    # reconnects after k delivered frames: the expectation restarts at 0 on every new connection
+    for k, j in itertools.product((1, 2, 3, 5, 255, 257), (1, 3)):
+        h = [("req", 0, c % 256) for c in range(k)] + [("reconnect",)] + [("req", 0, c) for c in range(j)]
+        hs.append(h + [("req", 0, (k - 1) % 256), ("reconnect",), ("req", 0, 255), ("req", 0, 0)])
     return hs
 
 
@@ -205,6 +209,14 @@ def run(ck):
         meta.append(("tunnel", src, h))
         traces.append(run_dm(h, ck.seed))
         meta.append(("devmgmt", src, h))
+        if any(x[0] == "reconnect" for x in h):          # route-back tunnels (NAT mode) take another path in setup_tunnel
+            t = run_tunnel(h, ck.seed, route_back=True)
+            for e in t:
+                if e["ev"] == "recv":
+                    e["own"] = 1
+                    e["ch"] = e["acks"][0][0] if e["acks"] else e["ch"]
+            traces.append(t)
+            meta.append(("tunnel-route-back", src, h))
     res = tlc.batch(ck, "io/SeqCounter_Trace", traces)
     for idx, info in sorted(res.bad.items()):
         kind, src, h = meta[idx]
@@ -245,8 +257,8 @@ def replay(ck, path):
 
     d = json.loads(open(path).read())["replay"]
     h = [tuple(x) for x in d["history"]]
-    t = run_tunnel(h, ck.seed) if d["target"] == "tunnel" else run_dm(h, ck.seed)
-    if d["target"] == "tunnel":
+    t = run_dm(h, ck.seed) if d["target"] == "devmgmt" else run_tunnel(h, ck.seed, route_back=d["target"].endswith("route-back"))
+    if d["target"] != "devmgmt":
         for e in t:
             if e["ev"] == "recv":
                 e["own"] = 1
